@@ -1,7 +1,7 @@
 (** C09 - Background work is durable and recurring maintenance never stops.
     Only statements: each theorem is closed by [exact] of a lemma proved elsewhere. *)
 From Coq Require Import String.
-From KV Require Import base.Tac queue.Queue queue.QueueProofs queue.QueueSpec queue.TaskName queue.QueueCheck queue.QueueOracleProofs gen.GenQueue.
+From KV Require Import base.Tac queue.Queue queue.QueueProofs queue.FollowSpec queue.QueueSpec queue.TaskName queue.QueueCheck queue.QueueOracleProofs gen.GenQueue.
 Open Scope N_scope.
 
 (** Due tasks are handed out earliest first. *)
